@@ -130,6 +130,27 @@ func (e *Engine) verifyFunc(name string) (*FuncResult, error) {
 			}
 		}
 	}
+	// the same for the contracts of function literals that were executed inside this function
+	// (inline / spawn_inline): a clause of theirs that no statement answered to is a mismatch
+	for iname := range r.inlined {
+		iname = strings.TrimSuffix(iname, " (at go statement)")
+		fc := e.cs.Funcs[iname]
+		if fc == nil || iname == name {
+			continue
+		}
+		for _, ac := range fc.Ats {
+			if r.usedAts[iname+"|"+ac.Anchor+"|"+ac.Text] {
+				continue
+			}
+			if ac.Kind == "assert" {
+				r.obls = append(r.obls, &Obligation{Name: name + "/assert/" + iname + ":" + ac.Anchor + ":" + ac.Label(clip(ac.Text, 30)), Kind: "assert", Func: name, Tags: ac.Tags,
+					Text: ac.Text + " -- anchor " + ac.Anchor + " of " + iname + " was never reached while executing " + name + " (statement removed, renumbered, or on a path the engine does not explore)", Pc: "true", Goal: "false",
+					Result: &SolverResult{Status: "anchor-missing", Solver: "anchor-scan", Output: "anchor " + ac.Anchor + " not reached"}})
+			} else {
+				r.evalErrors = append(r.evalErrors, fmt.Sprintf("%s: anchor %q of inlined %s not found", name, ac.Anchor, iname))
+			}
+		}
+	}
 	res := &FuncResult{Obs: obs, AxLo: axLo, AxHi: axHi, Name: name, Obls: r.obls, GenTime: time.Since(t0).Seconds(), Facts: r.facts.lines, RunNames: r.names, Declared: r.facts.declared}
 	res.Notes = sortedKeys(r.notes)
 	res.Assumes = sortedKeys(r.assumes)
